@@ -1226,3 +1226,19 @@ pub fn mut_param_reassigned_safe(mut i: usize, a: &[u8; 8]) -> u8 {
     i = i + 4;
     a[i]
 }
+
+// two vectors that both start empty do not have the same length
+pub fn two_filled_vecs_panics(a: &[u8], b: &[u8]) -> u8 {
+    let mut v: Vec<u8> = Vec::new();
+    let mut w: Vec<u8> = Vec::new();
+    for &x in a {
+        v.push(x);
+    }
+    for &x in b {
+        w.push(x);
+    }
+    if v.len() > 3 {
+        return w[3];
+    }
+    0
+}
